@@ -922,7 +922,7 @@ func TestC30(t *testing.T) {
 
 	bin := proc.Build(t, "./c30/cmd/c30mgr", raceEnabled)
 	base := ev.TempDir(t, "c30-")
-	n := run.N(12, 120)
+	n := run.N(12, 100)
 	r := run.Rand("scripts")
 	var scripts []script
 	for i := 0; i < n; i++ {
@@ -932,7 +932,7 @@ func TestC30(t *testing.T) {
 	// that they overlap with the short scripts)
 	rb := run.Rand("backlog-scripts")
 	var big []script
-	for i := 0; i < run.N(1, 4); i++ {
+	for i := 0; i < run.N(1, 3); i++ {
 		big = append(big, genBacklogScript(rb, fmt.Sprintf("big%d", i), run.Quick()))
 	}
 	scripts = append(big, scripts...)
